@@ -988,9 +988,59 @@ func (f *c09Fix) runSequence(nBlocks int) {
 			}
 			f.extraOps()
 		}
+		if f.lend && rng.Chance(15) {
+			f.aimBorrowThresholdExact()
+		}
 		f.shapeStats()
 		f.block()
 	}
+}
+
+// the context of the NEXT block (height and clock as block() will set them): interest accrues with the clock, so a ratio that
+// is to meet its threshold exactly has to be computed at the time of the judgement
+func (f *c09Fix) nextBlockCtx() sdk.Context {
+	h := f.height + 1
+	return f.ctx.WithBlockHeight(h).WithBlockTime(time.Unix(1700000000+h*6+f.tOffset, 0).UTC())
+}
+
+// boundary-directed threshold: the liquidation threshold (the e-mode one for an e-mode pair) of the collateral asset of a
+// same-pool borrow := its ratio at the next block + {-1, 0, +1} ulp — the strictness of `ratio.GT(threshold)` is decided here
+func (f *c09Fix) aimBorrowThresholdExact() {
+	var cand []c09Borrow
+	recs := f.borrowRecords()
+	st, en := f.borrowRange(f.ctx, len(recs))
+	for i, r := range recs {
+		if i >= st && i < en && !r.missing && !r.liquidated && r.bridged.IsZero() && r.amountIn.IsPositive() {
+			cand = append(cand, r)
+		}
+	}
+	if len(cand) == 0 {
+		return
+	}
+	r := cand[0] // the first one of the coming range: no earlier seizure of the pass changes its accrual
+	nctx, _ := f.nextBlockCtx().CacheContext()
+	acc, err := f.app.LendKeeper.CalculateBorrowInterestForLiquidation(nctx, r.id)
+	if err != nil {
+		return
+	}
+	a1, _ := f.app.AssetKeeper.GetAsset(f.ctx, r.assetIn)
+	a2, _ := f.app.AssetKeeper.GetAsset(f.ctx, r.assetOut)
+	var ratio sdk.Dec
+	p, _ := try(func() {
+		ratio, err = f.app.LendKeeper.CalculateCollateralizationRatio(nctx, acc.AmountIn.Amount, a1, acc.AmountOut.Amount.Add(acc.InterestAccumulated.TruncateInt()), a2)
+	})
+	if p || err != nil || !ratio.IsPositive() {
+		return
+	}
+	d := int64(f.rng.Range(-1, 1))
+	rp, _ := f.app.LendKeeper.GetAssetRatesParams(f.ctx, r.assetIn)
+	if r.emode {
+		rp.ELiquidationThreshold = ratio.Add(sdk.NewDecWithPrec(d, 18))
+	} else {
+		rp.LiquidationThreshold = ratio.Add(sdk.NewDecWithPrec(d, 18))
+	}
+	f.app.LendKeeper.SetAssetRatesParams(f.ctx, rp)
+	f.tr.Count(fmt.Sprintf("op:aimborrow-threshold-exact:%d", d))
 }
 
 // statistics only: what kind of seizures the last transition performed (per generation, per auction type)
@@ -1322,6 +1372,8 @@ func TestC09(t *testing.T) {
 	c09WitnessBorrowLeak(t, app, base, tr) // repaired by c15713f: nothing is flagged, nothing moves
 	c09WitnessTransitBand(t, app, base, tr)
 	c09WitnessGuardsV1(t, app, base, tr)
+	c09WitnessBorrowGuards(t, app, base, tr, 1)
+	c09WitnessBorrowGuards(t, app, base, tr, 2)
 	c09WitnessEmodeMsgV1(t, app, base, tr)  // NEW finding: generation-1 MsgLiquidateBorrow ignores e-mode
 	c09WitnessAuctionTypesV2(t, app, base, tr) // English-only and no-type whitelistings
 
@@ -1954,6 +2006,64 @@ func c09WitnessGuardsV1(t *testing.T, app *chain.App, base sdk.Context, tr *Trac
 	f.block()
 	_, still = f.app.VaultKeeper.GetVault(f.ctx, 2)
 	tr.Set("witness_guards_v1_vault2_still_open_after_guards_off", still)
+}
+
+// Borrow guards, deterministically, both generations: all borrows far under water; with the kill switch of the lend app on, neither
+// the sweep nor a message may touch them (generation 2 also: lend app not whitelisted); guards off: the sweep seizes.
+func c09WitnessBorrowGuards(t *testing.T, app *chain.App, base sdk.Context, tr *Trace, gen int) {
+	ctx, _ := base.CacheContext()
+	f := c09Build(t, app, ctx, gen, NewRng(51), tr, true)
+	c09LendFixture(f)
+	f.setBatch(9)
+	if gen == 2 {
+		for _, a := range f.apps {
+			f.setWl2E(a, true, false)
+		}
+	} else {
+		f.setLendAuc1(lendtypes.AppID)
+	}
+	tr.Line("liq.begin", fmt.Sprintf("v%d", gen), "9")
+	f.block()
+	f.setPrice(f.lendCol, 1500000, true)
+	f.setPrice(f.lendCol2, 1400000, true)
+	msgs := func() {
+		for _, r := range f.borrowRecords() {
+			if gen == 2 {
+				f.liquidateMsg(r.id, 3, 1)
+			} else {
+				f.liquidateBorrowMsgV1(r.id)
+			}
+		}
+	}
+	flagged := func() int {
+		n := 0
+		for _, r := range f.borrowRecords() {
+			if r.liquidated {
+				n++
+			}
+		}
+		return n
+	}
+	_ = f.app.EsmKeeper.SetKillSwitchData(f.ctx, esmtypes.KillSwitchParams{AppId: lendtypes.AppID, BreakerEnable: true})
+	f.block()
+	msgs()
+	tr.Set(fmt.Sprintf("witness_borrow_guards_gen%d_flagged_under_killswitch", gen), flagged())
+	_ = f.app.EsmKeeper.SetKillSwitchData(f.ctx, esmtypes.KillSwitchParams{AppId: lendtypes.AppID, BreakerEnable: false})
+	if gen == 2 {
+		f.ctx.KVStore(f.app.GetKey(liq2types.StoreKey)).Delete(liq2types.LiquidationWhiteListingKey(lendtypes.AppID)) // the keeper has no delete: state as before the app was whitelisted
+		f.block()
+		msgs()
+		tr.Set("witness_borrow_guards_gen2_flagged_without_whitelisting", flagged())
+		f.setWl2E(lendtypes.AppID, true, false)
+	}
+	recs := f.borrowRecords()
+	if gen == 1 && len(recs) > 0 {
+		f.liquidateBorrowMsgV1(recs[0].id) // one by message, the rest by the sweep
+	} else if len(recs) > 0 {
+		f.liquidateMsg(recs[0].id, 3, 1)
+	}
+	f.block()
+	tr.Set(fmt.Sprintf("witness_borrow_guards_gen%d_flagged_after_guards_off", gen), flagged())
 }
 
 // Generation 1, e-mode pair: the collateral price is put in the middle of the band between the pair's normal threshold and
